@@ -81,14 +81,41 @@ def inject_stmt(lines, i, snippet):
     return lines[:i] + [pad + s for s in snippet] + lines[i:]
 
 
-def inject_expr(lines, i, text):
-    """replace the first integer literal / simple operand in line i by `text` (expression position)"""
-    import re
+def _int_literal_spans(src):
+    """line -> [(col, end_col)] of integer literals that are genuine expressions (not text inside a string or an
+    f-string, whose replacement fields and format specs are left alone)"""
+    spans = {}
+    try:
+        tree = ast.parse(src)
+    except SyntaxError:
+        return spans
+
+    def walk(node, in_fstring):
+        if isinstance(node, ast.JoinedStr):
+            in_fstring = True
+        if isinstance(node, ast.Constant) and type(node.value) is int and not in_fstring and node.lineno == node.end_lineno:
+            spans.setdefault(node.lineno, []).append((node.col_offset, node.end_col_offset))
+        for ch in ast.iter_child_nodes(node):
+            walk(ch, in_fstring)
+    walk(tree, False)
+    return spans
+
+
+def inject_expr(lines, i, text, spans=None):
+    """replace the first integer literal of line i (an expression position) by `text`"""
     l = lines[i]
-    m = re.search(r"(?<![\w.])\d+(?![\w.])", l)
-    if not m or l.strip().startswith(("def ", "class ", "import ", "from ", "global ", "nonlocal ", "@", "for ", "type ")):
+    if l.strip().startswith(("def ", "class ", "import ", "from ", "global ", "nonlocal ", "@", "for ", "type ")):
         return None
-    return lines[:i] + [l[:m.start()] + text + l[m.end():]] + lines[i + 1:]
+    if spans is None:
+        spans = _int_literal_spans("\n".join(lines) + "\n")
+    cands = sorted(spans.get(i + 1, []))
+    if not cands:
+        return None
+    a, b = cands[0]
+    # col offsets are in UTF-8 bytes
+    raw = l.encode("utf8")
+    new = (raw[:a] + text.encode("utf8") + raw[b:]).decode("utf8")
+    return lines[:i] + [new] + lines[i + 1:]
 
 
 def all_injections(src, rng=None, per_kind=None):
@@ -96,6 +123,7 @@ def all_injections(src, rng=None, per_kind=None):
     yields only programs for which the property demands rejection"""
     lines = src.rstrip("\n").split("\n")
     pos = statement_positions(lines)
+    spans = _int_literal_spans(src)
     out = []
     for i in pos:
         near, inloop = enclosing(lines, i)
@@ -109,7 +137,7 @@ def all_injections(src, rng=None, per_kind=None):
             out.append(("star-import", i, "\n".join(inject_stmt(lines, i, ["from math import *"])) + "\n"))
         out.append(("yield-stmt", i, "\n".join(inject_stmt(lines, i, ["yield 5"])) + "\n"))
         for kind, text in EXPR_SNIPPETS.items():
-            r = inject_expr(lines, i, text)
+            r = inject_expr(lines, i, text, spans)
             if r:
                 out.append((kind, i, "\n".join(r) + "\n"))
         if not inloop:
